@@ -44,12 +44,15 @@ type C15Op struct {
 
 // C15Scenario is one history.
 type C15Scenario struct {
-	Callers  [][]C15Op `json:"callers"`
-	FailAt   []int     `json:"fail_at,omitempty"` // indices of low-level RocksDB calls that fail
-	Backup   bool      `json:"backup,omitempty"`
-	Tape     []uint8   `json:"tape"`
-	TapeSeed uint64    `json:"tape_seed"`
-	Calm     int       `json:"calm"`
+	Callers [][]C15Op `json:"callers"`
+	FailAt  []int     `json:"fail_at,omitempty"` // indices of low-level RocksDB calls that fail
+	// FailWrite >= 0: the k-th low-level write of a batch (ExecuteBatch) fails, after the batch has been
+	// read, merged and built
+	FailWrite int     `json:"fail_write"`
+	Backup    bool    `json:"backup,omitempty"`
+	Tape      []uint8 `json:"tape"`
+	TapeSeed  uint64  `json:"tape_seed"`
+	Calm      int     `json:"calm"`
 }
 
 func drawC15(rt *rapid.T, tier string) C15Scenario {
@@ -114,8 +117,12 @@ func drawC15(rt *rapid.T, tier string) C15Scenario {
 		}
 		sc.Callers = [][]C15Op{ops}
 	}
+	sc.FailWrite = -1
 	if rapid.IntRange(0, 2).Draw(rt, "faulty") == 0 {
 		sc.FailAt = rapid.SliceOfN(rapid.IntRange(0, 40), 1, 3).Draw(rt, "fail_at")
+		if rapid.IntRange(0, 2).Draw(rt, "fail_a_write") == 0 {
+			sc.FailWrite = rapid.IntRange(0, 2).Draw(rt, "fail_write")
+		}
 	}
 	sc.Tape = rapid.SliceOfN(rapid.Uint8(), 0, 96).Draw(rt, "tape")
 	return sc
@@ -302,6 +309,9 @@ func runC15(t *testing.T, sc C15Scenario, keep bool) *core.Result {
 		for _, i := range sc.FailAt {
 			fi.FailAt[i] = true
 		}
+		if sc.FailWrite >= 0 {
+			fi.FailNamed = map[string]int{"ExecuteBatch": sc.FailWrite}
+		}
 		fi.OnFail = func(call string, idx int) {
 			injectedFor[s.TaskName()] = true
 			res.Fault("rocksdb-call-error:" + call)
@@ -449,7 +459,7 @@ func runC15(t *testing.T, sc C15Scenario, keep bool) *core.Result {
 			return
 		}
 		// final reads belong to the history
-		fi.FailAt = map[int]bool{}
+		fi.FailAt, fi.FailNamed = map[int]bool{}, nil
 		final = c15Model{}
 		for _, k := range c15Keys {
 			inv := s.Seq()
